@@ -66,11 +66,24 @@ func LabelWire(hostile bool) *rapid.Generator[[]byte] {
 		var b []byte
 		var bounds []int // label-start offsets of directly written names
 		n := rapid.IntRange(0, 8).Draw(t, "nnames")
+		shape := rapid.IntRange(0, 9).Draw(t, "shape")
 		for i := 0; i < n; i++ {
+			if shape == 0 && i == 1 && len(bounds) > 0 {
+				// a run of bare pointers onto the first name (each one a complete name of its own)
+				for k := rapid.IntRange(1, 12).Draw(t, "ptrrun"); k > 0; k-- {
+					off := bounds[0]
+					b = append(b, 0xC0|byte(off>>8), byte(off))
+				}
+				continue
+			}
 			nl := rapid.IntRange(0, 5).Draw(t, "nlabels")
+			full := (shape == 0 && i == 0) || (shape == 1 && i == n-1) || shape == 2
 			var mine []int
 			for k := 0; k < nl; k++ {
 				l := Label().Draw(t, "label")
+				if full { // names at and around the 255-octet limit: labels of 61..63 octets
+					l = strings.Repeat("x", rapid.IntRange(61, 63).Draw(t, "fulllen"))
+				}
 				mine = append(mine, len(b))
 				b = append(b, byte(len(l)))
 				b = append(b, l...)
@@ -97,7 +110,7 @@ func LabelWire(hostile bool) *rapid.Generator[[]byte] {
 					off = max(0, len(b)-2)
 				}
 				b = append(b, 0xC0|byte(off>>8), byte(off))
-			case i == n-1 && end == 5: // trailing partial name: no terminator
+			case i == n-1 && (end == 5 || shape == 1): // trailing partial name: no terminator
 			default:
 				b = append(b, 0)
 			}
